@@ -1,6 +1,7 @@
 package props
 
 import (
+	"fmt"
 	"go/ast"
 	"go/token"
 	"go/types"
@@ -38,6 +39,8 @@ func runC12(c *core.Ctx) {
 	c.Rule("C12.queue", "A3: CircularQueue (the buffer behind union sources and join sets) keeps FIFO order when it grows: unwrapped, the live segment data[head:tail] is copied to the front; wrapped, data[head:] is copied first and data[:tail] directly behind it; head becomes 0, tail the old capacity, the new element goes to that tail; Peek(i) reads (head+i) wrapped by len(data)")
 	c.Rule("C12.roles", "A7: joinGroup.newJoinset passes (node, StreamName, fill, fillValue, Names, Delimiter, Tolerance, t, diag) to newJoinset's parameters of the same roles, and newJoinset stores each parameter in the field of its role")
 
+	c.Rule("C12.bucket", "A7: every place in the join (JoinNode, joinGroup, joinset methods) that maps a timestamp to its tolerance bucket uses the same time.Time method (Round): a site that buckets differently (Truncate) compares times that the other sites made, so whether two points meet depends on which parent was read first")
+
 	root := c.P.Pkg("")
 	edge := c.P.Pkg("edge")
 	if root == nil || edge == nil {
@@ -50,6 +53,7 @@ func runC12(c *core.Ctx) {
 	c12Join(c, root)
 	c12Passed(c, root)
 	c12Queue(c, root)
+	c12Bucket(c, root)
 }
 
 func c12Consumer(c *core.Ctx, edge *packages.Package) {
@@ -114,6 +118,9 @@ func c12Consumer(c *core.Ctx, edge *packages.Package) {
 			}
 			return true
 		})
+		// the state a reader mutates is its own: no unsynchronised mutating method on something reached from the shared consumer
+		shared := c12SharedMutation(edge, fn)
+		c.Check(shared == "", "C12.confine", "multiConsumer.readEdge#own-state", fn.Decl.Pos(), "the per-parent reader goroutine mutates state reached from the consumer all readers share (%s), without a lock: two parents assembling batches at the same time overwrite each other's begin message and points, a batch is delivered under the other parent's name with mixed points, and which one depends on the interleaving", shared)
 		c.Check(bad == "", "C12.confine", "multiConsumer.readEdge#no-receiver-call", fn.Decl.Pos(), "the per-parent reader goroutine calls MultiReceiver.%s: union/join state would be mutated from several goroutines and the result would depend on the interleaving", bad)
 		c.Check(sends >= 2 && early == "", "C12.forward", "multiConsumer.readEdge", fn.Decl.Pos(), "readEdge must forward completed batches and all other messages in one loop that is only left on error or end of input (sends %d, early exit %q)", sends, early)
 		// default arm forwards everything that is not a batch part
@@ -822,4 +829,188 @@ func c12Queue(c *core.Ctx, pkg *packages.Package) {
 			c.Fail("C12.queue", "CircularQueue.Peek", fn.Decl.Pos(), "Peek has no wrapped and unwrapped return path")
 		}
 	}
+}
+
+// c12SharedMutation looks, in a goroutine body that is a method of a shared value, for a call of a receiver-mutating method of a
+// lock-free type of the same package on something reached from the method's receiver (directly, or through a local initialised
+// from it). It returns a description of the first one, or "".
+func c12SharedMutation(pkg *packages.Package, fn *core.Func) string {
+	info := pkg.TypesInfo
+	if fn.Decl.Recv == nil || len(fn.Decl.Recv.List) != 1 || len(fn.Decl.Recv.List[0].Names) != 1 {
+		return ""
+	}
+	recv := info.Defs[fn.Decl.Recv.List[0].Names[0]]
+	rooted := map[types.Object]bool{recv: true}
+	base := func(e ast.Expr) types.Object {
+		for {
+			switch x := ast.Unparen(e).(type) {
+			case *ast.SelectorExpr:
+				e = x.X
+			case *ast.IndexExpr:
+				e = x.X
+			case *ast.StarExpr:
+				e = x.X
+			case *ast.UnaryExpr:
+				e = x.X
+			case *ast.Ident:
+				return info.Uses[x]
+			default:
+				return nil
+			}
+		}
+	}
+	for changed := true; changed; {
+		changed = false
+		ast.Inspect(fn.Decl.Body, func(nd ast.Node) bool {
+			as, ok := nd.(*ast.AssignStmt)
+			if !ok || len(as.Lhs) != len(as.Rhs) {
+				return true
+			}
+			for i, l := range as.Lhs {
+				id, ok := l.(*ast.Ident)
+				if !ok {
+					continue
+				}
+				obj := info.Defs[id]
+				if obj == nil {
+					obj = info.Uses[id]
+				}
+				if obj == nil || rooted[obj] {
+					continue
+				}
+				// only reference-like values carry the sharing on: pointers, maps, slices, interfaces
+				switch obj.Type().Underlying().(type) {
+				case *types.Pointer, *types.Map, *types.Slice, *types.Interface:
+				default:
+					continue
+				}
+				if b := base(as.Rhs[i]); b != nil && rooted[b] {
+					rooted[obj] = true
+					changed = true
+				}
+			}
+			return true
+		})
+	}
+	mutates := func(m *types.Func) bool {
+		for _, f := range core.AllFuncs(pkg) {
+			if info.Defs[f.Decl.Name] != m || f.Decl.Recv == nil || len(f.Decl.Recv.List[0].Names) != 1 {
+				continue
+			}
+			r := info.Defs[f.Decl.Recv.List[0].Names[0]]
+			if _, ptr := r.Type().(*types.Pointer); !ptr {
+				return false
+			}
+			mut := false
+			ast.Inspect(f.Decl.Body, func(nd ast.Node) bool {
+				switch x := nd.(type) {
+				case *ast.AssignStmt:
+					for _, l := range x.Lhs {
+						if _, isIdent := ast.Unparen(l).(*ast.Ident); !isIdent && base(l) == r {
+							mut = true
+						}
+					}
+				case *ast.IncDecStmt:
+					if _, isIdent := ast.Unparen(x.X).(*ast.Ident); !isIdent && base(x.X) == r {
+						mut = true
+					}
+				}
+				return !mut
+			})
+			return mut
+		}
+		return false
+	}
+	hasLock := func(t types.Type) bool {
+		n := core.NamedOf(t)
+		if n == nil {
+			return false
+		}
+		st, ok := n.Underlying().(*types.Struct)
+		if !ok {
+			return false
+		}
+		for i := 0; i < st.NumFields(); i++ {
+			if fn := core.NamedOf(st.Field(i).Type()); fn != nil && fn.Obj().Pkg() != nil && fn.Obj().Pkg().Path() == "sync" {
+				return true
+			}
+		}
+		return false
+	}
+	found := ""
+	ast.Inspect(fn.Decl.Body, func(nd ast.Node) bool {
+		call, ok := nd.(*ast.CallExpr)
+		if !ok || found != "" {
+			return found == ""
+		}
+		sel, ok := call.Fun.(*ast.SelectorExpr)
+		if !ok {
+			return true
+		}
+		s, ok := info.Selections[sel]
+		if !ok || s.Kind() != types.MethodVal {
+			return true
+		}
+		m, ok := s.Obj().(*types.Func)
+		if !ok || m.Pkg() != pkg.Types {
+			return true
+		}
+		if b := base(sel.X); b == nil || !rooted[b] {
+			return true
+		}
+		if hasLock(s.Recv()) || !mutates(m) {
+			return true
+		}
+		found = types.ExprString(sel.X) + "." + m.Name() + " on " + types.TypeString(s.Recv(), types.RelativeTo(pkg.Types))
+		return false
+	})
+	return found
+}
+
+// c12Bucket: sibling agreement between the sites that bucket a time by the join tolerance.
+func c12Bucket(c *core.Ctx, root *packages.Package) {
+	info := root.TypesInfo
+	type site struct {
+		cons, method string
+		pos          token.Pos
+	}
+	var sites []site
+	count := map[string]int{}
+	for _, f := range core.AllFuncs(root) {
+		switch core.RecvName(f.Decl) {
+		case "JoinNode", "joinGroup", "joinset":
+		default:
+			continue
+		}
+		k := 0
+		ast.Inspect(f.Decl.Body, func(nd ast.Node) bool {
+			call, ok := nd.(*ast.CallExpr)
+			if !ok || len(call.Args) != 1 {
+				return true
+			}
+			sel, ok := call.Fun.(*ast.SelectorExpr)
+			if !ok || (sel.Sel.Name != "Round" && sel.Sel.Name != "Truncate") {
+				return true
+			}
+			s, ok := info.Selections[sel]
+			if !ok {
+				return true
+			}
+			if n := core.NamedOf(s.Recv()); n == nil || n.Obj().Pkg() == nil || n.Obj().Pkg().Path() != "time" || n.Obj().Name() != "Time" {
+				return true
+			}
+			k++
+			sites = append(sites, site{fmt.Sprintf("%s.%s#bucket%d", core.RecvName(f.Decl), f.Decl.Name.Name, k), sel.Sel.Name, call.Pos()})
+			count[sel.Sel.Name]++
+			return true
+		})
+	}
+	major := "Round"
+	if count["Truncate"] > count["Round"] {
+		major = "Truncate"
+	}
+	for _, st := range sites {
+		c.Check(st.method == major, "C12.bucket", st.cons, st.pos, "this site buckets the time with %s while the other %d sites use %s: a point in the upper half of a tolerance interval lands in another bucket here than where its partner was filed, so the pair is found only under one arrival order (inner join drops it, outer join emits a filled row)", st.method, count[major], major)
+	}
+	c.Floor("C12.bucket", "tolerance bucketing sites in the join", len(sites), 7)
 }
